@@ -11,11 +11,6 @@ pub struct ExMutex<T: ?Sized>(Mutex<T>);
 
 // std::net::Shutdown (stand-in: only the variant name is used by the code under contract)
 pub enum Shutdown { Read, Write, Both }
-// url::Url, crate::event::EventReceiver: opaque stand-ins (never inspected by the code under contract)
-#[verifier::external_body]
-pub struct Url { _p: () }
-#[verifier::external_body]
-pub struct EventReceiver { _p: () }
 
 // ---- async_net::TcpStream (assumed): a duplex stream.  As a reader its events are `rhist`; as a
 // writer its ghost state is `wire`, the bytes put on the wire so far.  Reading never changes
